@@ -3,7 +3,7 @@
 # usage: mkseed.sh Cxx tag
 ID="$1"; TAG="$2"; D=/tmp/seed/$ID-$TAG
 mkdir -p $D
-git -C /repo worktree add -q --detach $D/repo HEAD
+git -C /repo worktree add -q --detach $D/repo ${SEED_BASE:-HEAD}
 python3 - "$ID" > $D/PROPERTY.json <<'PY'
 import json,sys
 for l in open('/verif/properties.jsonl'):
